@@ -9,6 +9,8 @@ use verif_harness::gram::*;
 use verif_harness::*;
 
 const EXTRAS: bool = cfg!(feature = "extras");
+/// whole-reader correspondence lines (the Lean reader model answers them)
+const R_LINES: bool = true;
 
 fn esc_char(rng: &mut Rng, c: char, quote: char) -> String {
     let plain = c != quote && c != '\\' && !(c as u32 <= 0x1f);
@@ -99,6 +101,11 @@ fn main() {
             Some("Y") => { let seed: u64 = match it.next().and_then(|x| x.parse().ok()) { Some(s) => s, None => return ("bad-op".into(), "ok".into()) };
                 let rules = match it.next().and_then(parse_sexps).and_then(|t| t.get(0).and_then(rules_of)) { Some(r) => r, None => return ("bad-op".into(), "ok".into()) };
                 let (r, v, _) = eval_y(seed, &rules); *stats.entry(format!("Y_{}", r)).or_default() += 1; (if r == "rejected" { "same".into() } else { r }, v) }
+            // `R <hex text>`: the whole reader on a grammar text — what pest_meta::parser::parse + consume_rules return
+            Some("R") | Some("RX") => { let text = match it.next().and_then(unhexs) { Some(b) => b, None => return ("bad-op".into(), "ok".into()) };
+                let r = catch(|| pest_meta::parser::parse(pest_meta::parser::Rule::grammar_rules, &text).ok().and_then(|p| pest_meta::parser::consume_rules(p).ok()));
+                *stats.entry("R".into()).or_default() += 1;
+                (match r { Ok(Some(rs)) => format!("rules {}", show_rules(&rs)), Ok(None) => "reject".into(), Err(_) => "panic".into() }, "ok".into()) }
             Some("Q") => { let body = match it.next().and_then(unhexs) { Some(b) => b, None => return ("bad-op".into(), "ok".into()) };
                 let text = format!("a = {{ \"{}\" }}", body);
                 let r = catch(|| pest_meta::parser::parse(pest_meta::parser::Rule::grammar_rules, &text).ok().and_then(|p| pest_meta::parser::consume_rules(p).ok()));
@@ -124,7 +131,9 @@ fn main() {
                         #[cfg(feature = "extras")]
                         NodeTag(x, _) => rich(x, rng),
                         _ => {} } } rich(&mut r.expr, &mut rng); r }).collect();
-                for k in 0..(if thorough { 5 } else { 3 }) { let l = format!("Y {} {}", rng.next() % 1000000 + k, show_rules(&rules)); let (i, v) = eval_line(&l, &mut stats); out.push(l, i, v); }
+                for k in 0..(if thorough { 5 } else { 3 }) { let sd = rng.next() % 1000000 + k; let l = format!("Y {} {}", sd, show_rules(&rules)); let (i, v) = eval_line(&l, &mut stats); out.push(l, i, v);
+                    // the same text through the whole-reader correspondence (first spelling of each grammar)
+                    if k == 0 && R_LINES { let (_, _, text) = eval_y(sd, &rules); let l = format!("{} {}", if EXTRAS { "RX" } else { "R" }, hexs(&text)); let (i, v) = eval_line(&l, &mut stats); out.push(l, i, v); } }
             }
             // literal bodies: every escape form, valid and invalid
             let pieces = ["a", "é", "\\n", "\\r", "\\t", "\\\\", "\\0", "\\\"", "\\'", "\\x41", "\\x7f", "\\x80", "\\xFF", "\\xG1", "\\x4", "\\u{41}", "\\u{e9}", "\\u{1F600}", "\\u{10FFFF}", "\\u{110000}", "\\u{D800}", "\\u{0}", "\\u{00}", "\\u{0000041}", "\\u{}", "\\u{4G}", "\\u41", "\\q", "\\", "'", " "];
